@@ -25,6 +25,7 @@ import Golib.Proof.C02Walk
 import Golib.Proof.C02Seq
 import Golib.Proof.C02PtrRefine
 import Golib.Gen.FactsC02
+import Golib.Proof.C02Trans
 
 namespace Golib.C02
 
@@ -568,5 +569,33 @@ example :
 example : Abs (PSL.zero : PSL Int Int) (SL.zero : SL Int Int) ∧ AbsH (PSL.zero : PSL Int Int) (SL.zero : SL Int Int) ∧
     Good cfgEx (SL.zero : SL Int Int) ∧ WeakCmp cfgEx.cmp ∧ cfgEx.fixed = true :=
   ⟨abs_zero, absH_zero, Or.inr ⟨rfl, rfl⟩, cmpIntEx_total.toWeak, rfl⟩
+
+/-! ### Regenerated tie (wave 8): `listz/skip.go: randomLevel` translated by `go2lean`
+
+`Golib.Gen.Trans.C02.randomLevel` is regenerated from the tree under verification on every run
+(`Golib/Gen/TransC02.lean`; the word `r.Uint64()` delivers is its parameter). -/
+
+/-- TIE: the translated `randomLevel` equals the model's `randomLevel` (the tower height every
+`set` theorem above quantifies over) for every 64-bit word; it cannot panic. -/
+theorem c02_trans_randomLevel (k0 : BitVec 64) :
+    Golib.Gen.Trans.C02.randomLevel k0 = .ok ((Golib.C02.randomLevel k0.toNat : Nat) : Int) :=
+  trans_randomLevel_eq k0
+
+/-- The clause the skip list relies on, directly on the generated definition: the level is in
+`1 ..= maxLevel` (so `make([]*SkipNode, level)` and `update[i]`, `i < level`, stay in range). -/
+theorem c02_trans_randomLevel_range (k0 : BitVec 64) :
+    ∃ l : Int, Golib.Gen.Trans.C02.randomLevel k0 = .ok l ∧ 1 ≤ l ∧ l ≤ 32 := by
+  refine ⟨_, c02_trans_randomLevel k0, by simp only [Golib.C02.randomLevel]; omega, ?_⟩
+  have : (32 - len64 (k0.toNat &&& (2 ^ maxLevel - 1))) &&& (maxLevel - 1) ≤ maxLevel - 1 :=
+    Nat.and_le_right
+  simp only [Golib.C02.randomLevel, maxLevel] at this ⊢
+  omega
+
+/-- Non-vacuity: the word 0 gives level 1, the word 1 gives level 32, 2^31 gives level 1+… -/
+example : Golib.Gen.Trans.C02.randomLevel 0#64 = .ok 1 ∧
+    Golib.Gen.Trans.C02.randomLevel 1#64 = .ok 32 ∧
+    Golib.Gen.Trans.C02.randomLevel 1073741824#64 = .ok 2 := by
+  refine ⟨?_, ?_, ?_⟩ <;> decide +kernel
+
 
 end Golib.C02
